@@ -14,13 +14,44 @@
      C11_mask_move_whole     the mask never contains one half of IN_MOVE without the other
      C11_item_stream         ... and to streams of items (singles and paired moves) as handed over under the mask
      C11_table_refuted_pinned    the table of the pinned tree (finding F6)
-   What is NOT proved: C11_full, the statement over whole operation histories.  It needs the kernel,
-   reader (watch bookkeeping, pairing through the delay queue) and skip-repeats-queue models that are
-   being built separately (Kernel.v, Reader.v, Grouping.v, Pipeline.v); the pipeline lemma "deleting
-   raw events whose flag is outside needed_for changes neither the watch-state trajectory nor the
-   accepted output" is what remains, C11_table + C11_emit_stream being its emitter/table half. *)
+   Over the kernel / reader / buffer models (Fs.v, Reader.v, Contract.v):
+     C11_read_one_plain      a raw event without a structural bit only appends its InotifyEvent
+     C11_reader_transparent  reading the kept part of a batch: same final state, kept part of the output
+     C11_kernel_twin         same operation, watches with mask M' inside M: the second queue is the sent part of
+                             the first, up to the kernel's coalescing (kcollapse)
+     C11_kernel_no_coalescing    within one operation from a drained queue nothing is coalesced
+     C11_reader_mask_irrelevant  the reader's bookkeeping does not depend on the mask of its watches
+     C11_group_transparent   grouping the kept part of a batch = handed_over of the groups of the whole batch
+     C11_transparent_step / C11_transparent_sequential
+                             histories in which every operation is drained (one read of the whole queue,
+                             grouping, emission): the filtered watch queues EXACTLY the accepted part of what
+                             the unfiltered watch queues, from Inotify.__init__ on, for every recursive watch and
+                             for every non-recursive watch whose mask contains IN_MOVE
+     C11_transparent_sequential_all
+                             the same for EVERY filter and both kinds of watch (the non-recursive watches whose mask
+                             has no IN_MOVE are handled by a weaker twin relation: reader states equal up to
+                             _moved_from_events), given a well-formed root path and rename sources with a base name
+     C11_full_drained        C11_full instantiated with that drained semantics
+   What is NOT proved: C11_full for the Pipeline LTS over arbitrary action histories.  The gaps, named:
+     (a) histories that are not drained: several operations per read (the kernel then coalesces differently
+         under different masks - C11_kernel_twin is only up to kcollapse), reads that cut a burst, pairing
+         through the delay queue across reads and the clock;
+     (b) the skip-repeats event queue between emitter and handler is covered abstractly (C11_stutter_closure,
+         C11_handler_sequential: whatever repeats of the most recently queued event either queue drops, the
+         delivered streams are stutter-equal); the relation [skips] is not yet derived from the concurrent
+         SkipQueue model of C16 (its C16_drops_justified is the matching fact);
+     (c) C11_transparent_sequential(_all) speak about [run_from] (Inotify.__init__, then per operation: kernel,
+         one read of the whole queue, grouping, emission); per operation this is what Pipeline.prun delivers
+         (C11_pipeline_tie_filtered), but the induction over a whole Pipeline history (idle buffer re-established
+         after every operation) is not carried out.
+   C11_pipeline_tie_filtered / C11_pipeline_transparent_step tie the drained regime to Pipeline.prun with the
+   watch's class filter (pc_filter): they are C03's pipeline_tie with the filter kept. *)
 Require Import WD.Base.Prelude WD.Base.BStr WD.Model.SubEvents WD.Model.Emitter WD.Model.MaskTable.
-Require Import WD.Gen.MaskTableGen WD.Proofs.MaskTableProofs WD.Proofs.C11Proofs.
+Require Import WD.Model.Fs WD.Model.Reader WD.Model.Contract.
+Require Import WD.Gen.MaskTableGen WD.Proofs.MaskTableProofs WD.Proofs.C11Proofs WD.Proofs.ContractProofs.
+Require Import WD.Proofs.C11KernelProofs WD.Proofs.C11ReaderProofs WD.Proofs.C11TwinProofs WD.Proofs.C11GroupProofs
+               WD.Proofs.C11SeqProofs.
+Require Import WD.Model.Pipeline WD.Proofs.C11TieProofs WD.Proofs.C11FlatProofs WD.Proofs.C11StutterProofs.
 
 (* The full property.  [events F full recursive h] = the events delivered to the handler of a watch
    with event filter F (None = no filter) over the operation history h; [paced] = the pacing condition
@@ -125,6 +156,184 @@ Theorem C11_item_stream_refuted_pinned :
 Proof. exact emit_item_stream_refuted_pinned. Qed.
 Print Assumptions C11_item_stream_refuted_pinned.
 
+(* ------------------------------------------------------------------ kernel, reader, buffer *)
+(* A raw kernel event with none of the bits the reader acts on (IN_MOVED_FROM, IN_MOVED_TO, IN_IGNORED, and
+   IN_CREATE with IN_ISDIR under a recursive watch) leaves the bookkeeping and the kernel untouched. *)
+Theorem C11_read_one_plain : forall C t r k acc e,
+  structural (c_recursive C) (k_mask e) = false ->
+  read_one C t (r, k, acc) e =
+  match alookup N.eqb (k_wd e) (pfw r) with
+  | None => Crash SITE_PATH_FOR_WD
+  | Some wdp => Done (r, k, acc ++ [mkraw e (rpath wdp (k_name e))])
+  end.
+Proof. exact read_one_plain_c11. Qed.
+Print Assumptions C11_read_one_plain.
+
+(* For every predicate on masks that keeps the structural events (and, under a recursive watch, the
+   IN_CREATE raws the reader simulates): reading the kept part of a batch ends in the same reader and
+   kernel state and outputs the kept part of the output. *)
+Theorem C11_reader_transparent : forall C t (keep : N -> bool),
+  (forall m, structural (c_recursive C) m = true -> keep m = true) ->
+  (c_recursive C = true -> keep IN_CREATE = true /\ keep (N.lor IN_CREATE IN_ISDIR) = true) ->
+  forall b r k acc r' k' out,
+    read_batch C t (r, k, acc) b = Done (r', k', out) ->
+    read_batch C t (r, k, filter (fun x => keep (r_mask x)) acc) (filter (fun e => keep (k_mask e)) b)
+    = Done (r', k', filter (fun x => keep (r_mask x)) out).
+Proof. exact reader_transparent. Qed.
+Print Assumptions C11_reader_transparent.
+
+(* Two inotify instances with the same watches, masks M and M' (M' inside M, no IN_ISDIR bit): the same
+   operation keeps them twins, and the second queue is what the kernel's coalescing makes of the part of
+   the first queue that a watch with mask M' is sent. *)
+Theorem C11_kernel_twin : forall M M', N.land M' M = M' -> N.land IN_ISDIR M' = 0%N ->
+  forall k k' t o, kwt M M' k k' -> kq M' k k' ->
+    kwt M M' (kernel_op k t o) (kernel_op k' t o) /\ kq M' (kernel_op k t o) (kernel_op k' t o).
+Proof. exact kernel_op_twin. Qed.
+Print Assumptions C11_kernel_twin.
+
+Theorem C11_kernel_no_coalescing : forall k t o, k_queue k = [] -> NoDup (k_queue (kernel_op k t o)).
+Proof. exact kernel_op_nodup. Qed.
+Print Assumptions C11_kernel_no_coalescing.
+
+Theorem C11_reader_mask_irrelevant : forall C M M', c_mask C = M -> forall t b r k k' acc,
+  kw0 M M' k k' ->
+  orel M M' (read_batch C t (r, k, acc) b) (read_batch (with_mask C M') t (r, k', acc) b).
+Proof. exact read_batch_twin. Qed.
+Print Assumptions C11_reader_mask_irrelevant.
+
+Theorem C11_group_transparent : forall C M', N.land M' IN_ALL_EVENTS = M' -> N.land IN_ISDIR M' = 0%N ->
+  flag_in IN_MOVED_FROM M' = flag_in IN_MOVED_TO M' ->
+  forall raws, Forall (fun x => kshaped (r_mask x)) raws ->
+    group_batch C (filter (fun x => kkeep M' (r_mask x)) raws) = flat_map (handed_over M') (group_batch C raws).
+Proof. exact group_batch_handed. Qed.
+Print Assumptions C11_group_transparent.
+
+(* every recursive watch sees the structural events, whatever its filter (from the table lemma) *)
+Theorem C11_visible_recursive : forall F, visible F true.
+Proof. exact visible_recursive. Qed.
+Print Assumptions C11_visible_recursive.
+
+(* ONE DRAINED OPERATION.  [run_one F C full w k r o] = apply o, let the kernel queue its records, read the
+   whole queue, group, emit through the class filter F; it returns the new world / kernel / reader state
+   and the events queued (with F = None it is Contract.deliver_one).  The unfiltered watch has mask
+   WATCHDOG_ALL, the filtered one the mask its filter is compiled into. *)
+Theorem C11_transparent_step : forall F C, c_mask C = WATCHDOG_ALL -> visible F (c_recursive C) ->
+  forall full w k k' r o w1 k1 r1 evs,
+    kw0 WATCHDOG_ALL (kmask F (c_recursive C)) k k' ->
+    run_one None C full w k r o = Some (w1, k1, r1, evs) ->
+    exists k1', run_one F (with_mask C (kmask F (c_recursive C))) full w k' r o
+                = Some (w1, k1', r1, filter (fun e => accepts F (ev_cls e)) evs) /\
+                kw0 WATCHDOG_ALL (kmask F (c_recursive C)) k1 k1'.
+Proof. exact transparent_step. Qed.
+Print Assumptions C11_transparent_step.
+
+Theorem C11_run_one_is_deliver_one : forall C full w k r o,
+  option_map snd (run_one None C full w k r o) = deliver_one C full w k r o.
+Proof. exact run_one_deliver. Qed.
+Print Assumptions C11_run_one_is_deliver_one.
+
+(* HISTORIES IN WHICH EVERY OPERATION IS DRAINED, from Inotify.__init__ on the initial file system: the watch
+   with event filter F queues exactly the accepted part of what the unfiltered watch queues (no stutter
+   needed: nothing is coalesced in this regime).  Hypothesis [visible]: the filter's mask contains IN_MOVE
+   (and IN_CREATE when recursive) - true of every recursive watch (C11_visible_recursive). *)
+Theorem C11_transparent_sequential : forall F C full,
+  c_mask C = WATCHDOG_ALL -> visible F (c_recursive C) ->
+  forall w ops evs,
+    run_from None C full w ops = Some evs ->
+    run_from F (with_mask C (kmask F (c_recursive C))) full w ops
+    = Some (filter (fun e => accepts F (ev_cls e)) evs).
+Proof. exact transparent_from. Qed.
+Print Assumptions C11_transparent_sequential.
+
+(* EVERY FILTER, RECURSIVE AND NON-RECURSIVE.  The hypotheses beyond C11_transparent_sequential's replace
+   [visible]: the root path is non-empty and does not end in "/", and the source of every rename has a proper
+   base name (both true of every real path; needed only for the non-recursive watches whose mask has no IN_MOVE,
+   to know that a remembered move source is never the watched root itself). *)
+Theorem C11_transparent_sequential_all : forall F C full,
+  c_mask C = WATCHDOG_ALL -> c_root C <> [] -> last_is_sep (c_root C) = false ->
+  forall w ops evs, Forall op_ok ops ->
+    run_from None C full w ops = Some evs ->
+    run_from F (with_mask C (kmask F (c_recursive C))) full w ops
+    = Some (filter (fun e => accepts F (ev_cls e)) evs).
+Proof. exact transparent_from_all. Qed.
+Print Assumptions C11_transparent_sequential_all.
+
+(* the non-recursive reader is insensitive to the halves of a move *)
+Theorem C11_reader_transparent_flat : forall C, c_recursive C = false -> c_root C <> [] -> last_is_sep (c_root C) = false ->
+  forall t (keep : N -> bool), (forall m, Emitter.is_ignored m = true -> keep m = true) ->
+  forall b r r0 k acc r' k' out,
+    (forall e, In e b -> keep (k_mask e) = true -> is_moved_from (k_mask e) = false /\ is_moved_to (k_mask e) = false) ->
+    (forall e, In e b -> is_moved_from (k_mask e) = true -> valid_name (k_name e) = true) ->
+    req r r0 -> flat_inv (c_root C) r ->
+    read_batch C t (r, k, acc) b = Done (r', k', out) ->
+    exists r0',
+      read_batch C t (r0, k, filter (fun x => keep (r_mask x)) acc) (filter (fun e => keep (k_mask e)) b)
+      = Done (r0', k', filter (fun x => keep (r_mask x)) out) /\ req r' r0' /\ flat_inv (c_root C) r'.
+Proof. exact reader_transparent_flat. Qed.
+Print Assumptions C11_reader_transparent_flat.
+
+(* The skip-repeats queue between emitter and handler: [skips None puts kept] = [kept] is [puts] minus some
+   events that are equal to the most recently queued one.  If the filtered watch queues the accepted part of what
+   the unfiltered watch queues, the handlers' streams are equal up to stutter, whatever either queue drops. *)
+Theorem C11_stutter_closure : forall F putsU keptU putsF keptF,
+  putsF = filter (fun e => accepts F (ev_cls e)) putsU -> skips None putsU keptU -> skips None putsF keptF ->
+  stutter_eq keptF (filter (fun e => accepts F (ev_cls e)) keptU).
+Proof. exact stutter_closure. Qed.
+Print Assumptions C11_stutter_closure.
+
+(* drained histories, at the handlers: C11_full's conclusion for the drained regime *)
+Theorem C11_handler_sequential : forall F C full,
+  c_mask C = WATCHDOG_ALL -> c_root C <> [] -> last_is_sep (c_root C) = false ->
+  forall w ops evsU, Forall op_ok ops ->
+    run_from None C full w ops = Some evsU ->
+    exists evsF, run_from F (with_mask C (kmask F (c_recursive C))) full w ops = Some evsF /\
+      forall keptU keptF, skips None evsU keptU -> skips None evsF keptF ->
+        stutter_eq keptF (filter (fun e => accepts F (ev_cls e)) keptU).
+Proof. exact handler_sequential. Qed.
+Print Assumptions C11_handler_sequential.
+
+(* C11_full holds of the drained semantics: history = (reader configuration, initial world, operations), every
+   operation drained; paced = WATCHDOG_ALL_EVENTS for the unfiltered watch, well-formed root path, rename sources
+   with a base name, no reader crash. *)
+Theorem C11_full_drained : C11_full dhist paced_drained events_drained.
+Proof. exact full_drained. Qed.
+Print Assumptions C11_full_drained.
+
+(* [run_one (pc_filter P)] is what the Pipeline model delivers for AOp o; ARead (whole queue); ATick delay;
+   AEmit ... from a state whose buffer is idle (C03's pipeline_tie, with the class filter kept). *)
+Theorem C11_pipeline_tie_filtered : forall P s o w1 k1 r1 evs,
+  buffer_idle (p_buf s) -> p_stopped s = false -> k_queue (p_k s) = [] ->
+  (forall id, In id (map fst (p_tbl s)) -> (id < p_next s)%N) ->
+  run_one (pc_filter P) (pc_reader P) (pc_full P) (p_world s) (p_k s) (p_r s) o = Some (w1, k1, r1, evs) ->
+  exists nit s' obs, prun P s (tie_history P s o nit) [] = Done (s', obs) /\
+    p_world s' = w1 /\ p_k s' = k1 /\ p_r s' = r1 /\ p_out s' = p_out s ++ evs.
+Proof. exact pipeline_tie_filtered. Qed.
+Print Assumptions C11_pipeline_tie_filtered.
+
+(* Two Pipeline instances on the same world, an unfiltered watch and a watch with event filter F, idle twin
+   states: after one drained operation the filtered p_out has grown by exactly the accepted part of what the
+   unfiltered p_out has grown by, and the states are twins again. *)
+Theorem C11_pipeline_transparent_step : forall F PU PF sU sF o,
+  pc_filter PU = None -> pc_filter PF = F -> pc_full PF = pc_full PU ->
+  c_mask (pc_reader PU) = WATCHDOG_ALL -> visible F (c_recursive (pc_reader PU)) ->
+  pc_reader PF = with_mask (pc_reader PU) (kmask F (c_recursive (pc_reader PU))) ->
+  p_world sF = p_world sU -> p_r sF = p_r sU ->
+  kw0 WATCHDOG_ALL (kmask F (c_recursive (pc_reader PU))) (p_k sU) (p_k sF) ->
+  buffer_idle (p_buf sU) -> buffer_idle (p_buf sF) -> p_stopped sU = false -> p_stopped sF = false ->
+  (forall id, In id (map fst (p_tbl sU)) -> (id < p_next sU)%N) ->
+  (forall id, In id (map fst (p_tbl sF)) -> (id < p_next sF)%N) ->
+  forall w1 k1 r1 evs,
+  run_one None (pc_reader PU) (pc_full PU) (p_world sU) (p_k sU) (p_r sU) o = Some (w1, k1, r1, evs) ->
+  exists nU sU' obsU nF sF' obsF,
+    prun PU sU (tie_history PU sU o nU) [] = Done (sU', obsU) /\
+    prun PF sF (tie_history PF sF o nF) [] = Done (sF', obsF) /\
+    p_out sU' = p_out sU ++ evs /\
+    p_out sF' = p_out sF ++ filter (fun e => accepts F (ev_cls e)) evs /\
+    p_world sF' = p_world sU' /\ p_r sF' = p_r sU' /\
+    kw0 WATCHDOG_ALL (kmask F (c_recursive (pc_reader PU))) (p_k sU') (p_k sF').
+Proof. exact pipeline_transparent_step. Qed.
+Print Assumptions C11_pipeline_transparent_step.
+
 (* The table of the pinned tree (frozen copy): the table lemma is false.  Finding F6. *)
 Theorem C11_table_refuted_pinned :
   exists F recursive b, In b (needed_for F recursive) /\ flag_set b (mask_of_filter_pinned recursive F) = false.
@@ -211,3 +420,56 @@ Example C11_item_stream_nonvacuous :
   flat_map (handed_over (effective_mask (mask_of_filter false (Some [Concrete FileOpened])))) its
     = [Single (probe_raw IN_OPEN probe_entry)].
 Proof. vm_compute. repeat split. Qed.
+
+(* the sequential theorem on a concrete world (ContractProofs.ex_world: /R/{d/{f,e/},x}, /O/{y,z/g}), recursive
+   watch on /R, filter [FileDeletedEvent]: create, rename inside, move out, mkdir + create inside *)
+Example C11_sequential_nonvacuous :
+  let F := Some [Concrete FileDeleted] in
+  let ops := [Touch (ex_sl ex_R 97); Rename (ex_sl ex_R 97) (ex_sl ex_Rd 98); Rename (ex_sl ex_Rd 98) (ex_sl ex_O 99);
+              Mkdir (ex_sl ex_R 109); Touch (ex_sl (ex_sl ex_R 109) 110); Unlink (ex_sl (ex_sl ex_R 109) 110)] in
+  c_mask (ex_C true) = WATCHDOG_ALL /\ visible F true /\
+  option_map (map ev_cls) (run_from None (ex_C true) false ex_world ops)
+    = Some [FileCreated; DirModified; FileOpened; FileClosed; DirModified;
+            FileMoved; DirModified; DirModified; FileDeleted; DirModified;
+            DirCreated; DirModified; FileCreated; DirModified; FileOpened; FileClosed; DirModified;
+            FileDeleted; DirModified] /\
+  option_map (map (fun e => (ev_cls e, ev_src e)))
+             (run_from F (with_mask (ex_C true) (kmask F true)) false ex_world ops)
+    = Some [(FileDeleted, ex_sl ex_Rd 98); (FileDeleted, ex_sl (ex_sl ex_R 109) 110)].
+Proof. split; [reflexivity|]. split; [apply visible_recursive|]. vm_compute. split; reflexivity. Qed.
+
+(* the all-filters theorem on a non-recursive watch with [FileOpenedEvent] (mask DELETE_SELF|OPEN: no IN_MOVE) *)
+Example C11_sequential_flat_nonvacuous :
+  let F := Some [Concrete FileOpened] in
+  let ops := [Touch (ex_sl ex_R 97); Rename (ex_sl ex_R 97) (ex_sl ex_R 98); Write (ex_sl ex_R 98);
+              Rename (ex_sl ex_R 98) (ex_sl ex_O 99)] in
+  kmask F false = N.lor IN_DELETE_SELF IN_OPEN /\ Forall op_ok ops /\
+  option_map (map ev_cls) (run_from None (ex_C false) false ex_world ops)
+    = Some [FileCreated; DirModified; FileOpened; FileClosed; DirModified;
+            FileMoved; DirModified; DirModified;
+            FileOpened; FileModified; FileClosed; DirModified;
+            FileDeleted; DirModified] /\
+  option_map (map (fun e => (ev_cls e, ev_src e)))
+             (run_from F (with_mask (ex_C false) (kmask F false)) false ex_world ops)
+    = Some [(FileOpened, ex_sl ex_R 97); (FileOpened, ex_sl ex_R 98)].
+Proof.
+  split; [reflexivity|]. split; [repeat constructor|]. vm_compute. split; reflexivity.
+Qed.
+
+(* the skip relation: the second of two equal consecutive events may be dropped, a separated one may not *)
+Example C11_skips_nonvacuous :
+  let a := mk DirModified probe_root [] in let b := mk FileModified probe_entry [] in
+  skips None [a; a; b; a] [a; b; a] /\ collapse [a; a; b; a] = [a; b; a].
+Proof.
+  split; [|reflexivity].
+  apply sk_keep. apply sk_drop; [reflexivity|]. apply sk_keep. apply sk_keep. apply sk_nil.
+Qed.
+
+(* the hypotheses of C11_full_drained are satisfiable: the concrete world of the examples above *)
+Example C11_full_drained_nonvacuous :
+  paced_drained {| dh_cfg := ex_C true; dh_world := ex_world;
+                   dh_ops := [Touch (ex_sl ex_R 97); Rename (ex_sl ex_R 97) (ex_sl ex_O 99); Mkdir (ex_sl ex_R 109)] |}.
+Proof.
+  split; [reflexivity|]. split; [discriminate|]. split; [reflexivity|]. split; [repeat constructor|].
+  intros full recursive. destruct full, recursive; vm_compute; discriminate.
+Qed.
